@@ -7,4 +7,5 @@ CONSTANTS
   Part = "all"
   Dims = {"features", "rf", "dilation", "dc"}
   HOpts = {"temp", "hard", "gumbel", "disable"}
+  Forking = FALSE
 INVARIANT SamplerConsistent
